@@ -98,6 +98,13 @@ CHECKS['C05'] = dict(
    note='PARTIAL: the whole-program theorem evaluation = evaluation of the inlined program is not proved (decided by correspondence); guards are C06, recursion C20. Known finding F27 (a nested call rebinds @arguments / same-named parameters for the rest of the calling body). Hygiene: parameter names are not names of other variables (granted by the property). Trusted: Coq kernel; hand model; harness/gens/sheet.py tree().',
    design='3/C05')
 
+CHECKS['C12'] = dict(
+   category='other',
+   technique='Coq proof on a Gallina model of the PLY lexer (all rules, all modes, rule order regenerated from the built lexer) and of LessLexer.token(): gap theorem, layout-independence theorem, last-semicolon theorem + token-stream correspondence with the real lexer + base-vs-variant compilation on the real compiler (generated programs and the example corpus)',
+   text='Theorems C12_gap_raw (in every lexer state outside an interpolated string, any gap of blank runs, line-break runs, block comments and line comments lexes to one whitespace token per run; comment text yields no token and consumes exactly itself), C12_gap_filtered (what LessLexer.token() passes on, for every token history), C12_layout_independent (two gaps at the same place that both contain / both lack whitespace give the same token types and values for the whole rest of the input), C12_last_semicolon (written or omitted, the parser receives ; } and the same continuation), C12_rule_order (the model rule order = the order of the lexer PLY builds). Correspondence: (a) raw and filtered token streams (type, value, line) model vs real lexer on generated sheets in wild layouts, token soups and corpus files; (b) each generated program in a base layout vs 3 variants differing only in whitespace-run content, comments (bodies with ; { } quotes //) at statement boundaries and last semicolons must compile to identical bytes under the same options; (c) the same on every corpus file with runs located by the real lexer token positions.',
+   note='PARTIAL (category other): the theorems end at the token stream handed to the parser; that the LALR tables map equal streams to equal CSS is decided by (b),(c) on the real compiler. The model abstains (counted in the evidence) on backslash escapes, non-ASCII names and unquoted URL shapes inside parentheses. Trusted: Coq kernel; hand-written matchers for each rule expression (Python re semantics); PLY rule-order contract (checked by C12_rule_order against lexer.lexstatere).',
+   design='3/C12')
+
 NOT_YET = {}
 
 
